@@ -50,7 +50,9 @@ def main():
         S["max_steps"] = max(S["max_steps"], res.steps)
         S["sum_steps"] += res.steps
         for k, v in res.stats.items():
-            S["stats"][k] = S["stats"].get(k, 0) + v
+            # counters are summed; keys "n:..." / "max_..." are maxima
+            S["stats"][k] = max(S["stats"].get(k, 0), v) if k.startswith(("n:", "max_")) else \
+                S["stats"].get(k, 0) + v
         if res.harness_problem():
             S["harness"] = {"case": text, "message": res.message()}
             raise HarnessProblem()
